@@ -7,11 +7,24 @@ from vf.gen import build as bvbuild
 from vf.ref.bvsem import base
 
 
+class _Tag(claripy.Annotation):
+    """a user's marker on a constant: says nothing about its value"""
+
+    @property
+    def eliminatable(self):
+        return False
+
+    @property
+    def relocatable(self):
+        return True
+
+
 def build(d):
     o = base(d[0])
     v = bvbuild.variant(d[0])
     if o == "strv":
-        return claripy.StringV("".join(map(chr, d[1])))
+        lit = claripy.StringV("".join(map(chr, d[1])))
+        return lit.annotate(_Tag()) if v == "ann" else lit
     if o == "strs":
         return claripy.StringS(d[1], explicit_name=True)
     if o == "sconcat":
